@@ -220,11 +220,18 @@ func runC32(c *eng.Ctx) {
 			call, ok := in.(*ssa.Call)
 			return ok && call.Call.IsInvoke() && call.Call.Method.Name() == "Seek"
 		})
-		okProbe := len(probe) == 1
-		if okProbe {
-			off, ok1 := eng.ConstInt(probe[0].(*ssa.Call).Call.Args[0])
-			wh, ok2 := eng.ConstInt(probe[0].(*ssa.Call).Call.Args[1])
-			okProbe = ok1 && ok2 && off == 0 && wh == 2
+		okProbe := false
+		for _, pc := range probe {
+			off, ok1 := eng.ConstInt(pc.(*ssa.Call).Call.Args[0])
+			wh, ok2 := eng.ConstInt(pc.(*ssa.Call).Call.Args[1])
+			if ok1 && ok2 && off == 0 && wh == 2 {
+				// its result is the size handed to the range processor
+				for _, pr := range eng.Find(wr, eng.PlainCallTo("server.processRangeRequest")) {
+					if eng.SameVar(eng.Arg(pr.(*ssa.Call), 2), eng.ResultOf(pc, 0)) {
+						okProbe = true
+					}
+				}
+			}
 		}
 		c.Ob("SEEK-abs", eng.FuncName(wr)+" size-probe", okProbe, wr.Pos(), "the total size is the position of the end of the content (Seek(0, end))")
 		var cb *ssa.Function
